@@ -5,12 +5,21 @@
   function of the abstract program (Model/Elab.lean), so "exactly what was declared, in order, nothing else"
   and "independent of layout" are checked against the program itself, not against a second parser;
   (2) the theorems below settle, for ALL values, the places where the compiler transforms what was written:
-  string-literal escaping, enumerator numbering, tag storage, keyword escaping by the printer.
-  Integer-literal and lexer round trips are in Props/C02Lex.lean when present.
+  string-literal escaping, enumerator numbering, tag storage, keyword escaping by the printer;
+  (3) the LEXICAL half of "the result does not depend on layout" is proved below for ALL files and ALL layouts
+  (`layout_independence` and the theorems leading to it) over `Model/SliceLexer.lean`, a character-level model of
+  parsers/slice/lexer.rs that is itself tied to the real lexer by the correspondence stream `C02lex` (engine `slicelex`):
+  whitespace, line breaks, `//` and `/* */` comments, optional commas and backslash-escaped identifiers never change the
+  token sequence the parser receives (optional commas — layout in the printer model — show up as extra `Comma` tokens
+  exactly where they were written, nothing else).  The grammar half (tokens → AST) stays with the correspondence
+  (`parse_print_full` states it).
 -/
 import SlicecVerif.Model.Literals
 import SlicecVerif.Model.Elab
 import SlicecVerif.Gen.Keywords
+import SlicecVerif.Lemmas.SliceLexerLayout
+import SlicecVerif.Lemmas.SliceLexerItems
+import SlicecVerif.Lemmas.SliceLexerNames
 
 namespace Slicec.C02
 
@@ -119,9 +128,176 @@ theorem tag_stored (l : IntLit) (h0 : 0 ≤ l.value) (h1 : l.value < 2 ^ 31) :
     `check_if_keyword` on every run), so a generated identifier can never be read as a keyword. -/
 theorem printer_escapes_every_keyword : ∀ k ∈ Gen.sliceKeywords, keywords.contains k.1 = true := by decide
 
+/-! ## the lexical half of layout independence (model: Model/SliceLexer.lean, tied to lexer.rs by stream `C02lex`) -/
+
+open Slicec.SLex
+
+/-- **Separation lemma (general form): reading is local.** For every text `s`, every continuation `r` and either
+    attribute mode: if the way `s` ends cannot be affected by how `r` starts (`compat`: after a word no word character,
+    after a single `[` no `[`, after `]` no `]`, after `:` no `:`, after `-` no `>`, after an open `//` comment only a
+    line break, after whitespace / a closed comment / any self-delimiting token anything), then the lexer's output on
+    `s ++ r` is its output on `s` followed by its output on `r` started in the attribute mode reached at the end of `s`.
+    Two adjacent spellings never merge into one token or split differently unless `compat` says so. -/
+theorem lex_is_local (a : Bool) (s r : List Char) (h : compat (lexRun a s).last r = true) :
+    (lexRun a (s ++ r)).items = (lexRun a s).items ++ (lexRun (lexRun a s).attr r).items ∧
+    (lexRun a (s ++ r)).attr = (lexRun (lexRun a s).attr r).attr := by
+  rw [lexRun_append a s r h]; exact ⟨rfl, rfl⟩
+
+/-- every separator of the printer's catalogue (blanks, tabs, LF, CR LF, `//` comments running over lone carriage
+    returns up to the line break, `/* */` comments with line breaks, stars, slashes and non-ASCII text inside) reads as
+    no token at all, leaves `attribute_mode` alone, is not empty, and may follow anything but an open line comment. -/
+theorem gaps_read_as_nothing : ∀ g ∈ gapCatalogue,
+    (∀ a, lexRun a g.toList = ⟨[], a, .closed⟩) ∧ gapHeadOk g.toList = true ∧ g.toList ≠ [] := gapCatalogue_ok
+
+/-- any run of Unicode `White_Space` characters reads as nothing. -/
+theorem whitespace_reads_as_nothing (a : Bool) (g : List Char) (h : g.all isWs = true) :
+    lexRun a g = ⟨[], a, .closed⟩ := lexRun_ws a g h
+
+/-- beyond the catalogue: a `//` comment with ANY body (no line break in it; not starting with a third slash, which
+    would make it a doc comment) followed by its line break reads as nothing — a carriage return does not end it. -/
+theorem line_comment_reads_as_nothing (a : Bool) (t : List Char) (h1 : t.all (· != '\n') = true)
+    (h2 : t.head? ≠ some '/') : lexRun a ('/' :: '/' :: (t ++ ['\n'])) = ⟨[], a, .closed⟩ :=
+  lexRun_lineComment_nl a t h1 h2
+
+/-- a `/* */` comment with ANY body that does not contain `*/` (line breaks, `/*`, `//`, stars, quotes included)
+    reads as nothing: block comments do not nest and hide everything up to the first `*/`. -/
+theorem block_comment_reads_as_nothing (a : Bool) (body : List Char) (h : noClose body = true) :
+    lexRun a ('/' :: '*' :: (body ++ ['*', '/'])) = ⟨[], a, .closed⟩ := lexRun_blockComment a body h
+
+/-- a backslash-escaped identifier is the same `Identifier` token as the plain spelling — for every identifier text,
+    in and outside attributes — and the plain spelling is that token too unless the word is in the keyword table
+    (outside attributes); inside attributes the keyword table is not consulted at all. -/
+theorem escaped_identifier_same_token (a : Bool) (w : List Char) (h : isIdentText w = true) :
+    (lexRun a ('\\' :: w)).items = [.tok (.ident w)] ∧
+    (lexRun true w).items = [.tok (.ident w)] ∧
+    (Gen.sliceKeywords.lookup (String.ofList w) = none → (lexRun a w).items = [.tok (.ident w)]) := by
+  refine ⟨by rw [lexRun_escaped a w h], by rw [lexRun_word true w h]; rfl, fun hk => ?_⟩
+  rw [lexRun_word a w h]
+  cases a
+  · simp [checkKeyword, hk]
+  · rfl
+
+/-- the extracted keyword table, row by row: the plain spelling is the keyword token outside attributes, an
+    identifier inside `[…]` / `[[…]]`, and an identifier when escaped. -/
+theorem keyword_rows : ∀ p ∈ Gen.sliceKeywords,
+    lexSlice p.1.toList = .ok [.kw p.2] ∧ (lexRun true p.1.toList).items = [.tok (.ident p.1.toList)] ∧
+    lexSlice ('\\' :: p.1.toList) = .ok [.ident p.1.toList] := by decide
+
+/-- `attribute_mode` is set by `[` and `[[`, cleared by `]` and `]]`, and by nothing else: separators, line breaks and
+    comments between the bracket, the directive and the arguments leave it alone (see `gaps_read_as_nothing`), and so
+    does every other token. -/
+theorem attribute_mode_brackets_only (a : Bool) (c : Char) (cs : List Char) :
+    (lexNext a c cs).attr = (if c = '[' then true else if c = ']' then false else a) := by
+  unfold lexNext
+  split
+  · rename_i t ht
+    have h1 : c ≠ '[' := by intro e; subst e; simp [simpleTok] at ht
+    have h2 : c ≠ ']' := by intro e; subst e; simp [simpleTok] at ht
+    simp [h1, h2]
+  · by_cases h1 : c = '['
+    · subst h1; simp [lexPair]; split <;> (try split) <;> rfl
+    · by_cases h2 : c = ']'
+      · subst h2; simp [lexPair]; split <;> (try split) <;> rfl
+      · simp only [beq_iff_eq, h1, h2, if_false]
+        repeat' split
+        all_goals first
+          | rfl
+          | (simp only [lexPair]; split <;> (try split) <;> rfl)
+          | (simp only [lexString]; split <;> rfl)
+          | (simp only [lexSlash, lexLineComment]; repeat' split
+             all_goals rfl)
+          | (simp only [lexBackslash]; split <;> (try split) <;> rfl)
+
+/-- **The printer respects the separation rule.** For every file whose leaves are well-formed (`fileOk`: names are
+    identifiers, attribute directives and scoped names print as identifier/`::` sequences, string arguments and doc
+    lines contain no line break, integer literals are in base 2/10/16 — nothing about the *shape* of the file), the item
+    list passes the separation check `itemsOk`: wherever a layout may write two spellings without a separator (`glue`
+    gaps, absent optional commas) they cannot merge; every spelling lexes cleanly on its own; a doc line is followed
+    by a line break. No pair of adjacent items of `fileItems` is glued wrongly by the compact layout. -/
+theorem printer_respects_separation (f : SFile) (h : fileOk f = true) : itemsOk (fileItems f) = true :=
+  itemsOk_fileItems f h
+
+/-- a syntactic criterion for the name condition of `fileOk`: a scoped name whose `::`-separated segments (as the
+    printer splits them) are identifiers `[A-Za-z][A-Za-z0-9_]*` — the first may be empty: global scope — prints, with
+    the printer's escaping of keyword segments, as text that reads as identifiers separated by `::`. -/
+theorem names_with_identifier_segments (id : String) (h : nameSegsOk (id.splitOn "::") = true) :
+    nameTextOk false (escapeScoped id).toList = true := nameTextOk_of_segments id h
+
+/-- the same for attribute directives `a::b::c`: any identifiers will do, keyword spellings included, because the
+    keyword table is off in attribute mode. -/
+theorem directives_with_identifier_segments (segs : List String) (hne : segs ≠ [])
+    (h : ∀ s ∈ segs, isIdentText s.toList = true) : nameTextOk true ("::".intercalate segs).toList = true :=
+  nameTextOk_directive segs hne h
+
+/-- **Layout independence for item lists.** For every item list that passes the separation check, every layout and
+    every seed: the rendered text lexes without error to the tokens the items denote, with a `Comma` token exactly at
+    the optional commas the layout chose to write (`cs`), none in the canonical layout. -/
+theorem layout_independence_items (layout seed : Nat) (items : List Item) (h : itemsOk items = true) :
+    ∃ cs : List Bool, (layout = 0 → cs = []) ∧
+      lexSlice (render layout seed items).1.toList = .ok (tokensWith false cs items) :=
+  lex_render layout seed items h
+
+/-- **Layout independence (lexical half of C02), for ALL files and ALL layouts.** For every well-formed file, every
+    layout style and every seed of the layout generator (arbitrary whitespace, LF / CR LF, tabs, `//` and `/* */`
+    comments in every gap, optional commas written or not, identifiers written with or without a backslash), the real
+    lexer's model reads the rendered text without error as `tokensOf (fileItems f)` — a function of the abstract file
+    alone — plus `Comma` tokens exactly where an optional comma was written. -/
+theorem layout_independence (f : SFile) (hf : fileOk f = true) (layout seed : Nat) :
+    ∃ cs : List Bool, (layout = 0 → cs = []) ∧
+      lexSlice (render layout seed (fileItems f)).1.toList = .ok (tokensWith false cs (fileItems f)) ∧
+      CommaExt (tokensOf (fileItems f)) (tokensWith false cs (fileItems f)) := by
+  obtain ⟨cs, hcs, hlex⟩ := lex_render layout seed (fileItems f) (itemsOk_fileItems f hf)
+  exact ⟨cs, hcs, hlex, commaExt_tokensWith _ _ _⟩
+
+/-- the canonical text of a file lexes to exactly `tokensOf`. -/
+theorem canonical_tokens (f : SFile) (hf : fileOk f = true) :
+    lexSlice (printFile f).toList = .ok (tokensOf (fileItems f)) := by
+  obtain ⟨cs, hcs, hlex⟩ := lex_render 0 0 (fileItems f) (itemsOk_fileItems f hf)
+  rw [hcs rfl] at hlex
+  exact hlex
+
+/-- any two layouts of one file give token sequences that differ in `Comma` tokens only. -/
+theorem two_layouts_same_tokens (f : SFile) (hf : fileOk f = true) (l1 s1 l2 s2 : Nat) :
+    ∃ t1 t2, lexSlice (render l1 s1 (fileItems f)).1.toList = .ok t1 ∧
+      lexSlice (render l2 s2 (fileItems f)).1.toList = .ok t2 ∧ dropCommas t1 = dropCommas t2 := by
+  obtain ⟨c1, _, h1, e1⟩ := layout_independence f hf l1 s1
+  obtain ⟨c2, _, h2, e2⟩ := layout_independence f hf l2 s2
+  exact ⟨_, _, h1, h2, by rw [dropCommas_of_commaExt e1, dropCommas_of_commaExt e2]⟩
+
+/-- The grammar half, NOT proved here (no Lean model of the LALRPOP grammar; checked by the `compile` correspondence
+    against `astDump`): the token sequence of a well-formed file determines its AST dump, i.e. a parser that inverts
+    `tokensOf ∘ fileItems` exists and is what the real parser computes. Stated in its model-level form. -/
+def parse_print_full : Prop :=
+  ∀ f g : SFile, fileOk f = true → fileOk g = true →
+    dropCommas (tokensOf (fileItems f)) = dropCommas (tokensOf (fileItems g)) → astDump [f] = astDump [g]
+
 /-! non-vacuity -/
 example : unescapeLit "a\\\"b\\\\c".toList false = "a\"b\\c".toList := by decide
 example : enumValues none [⟨[], [], "A", none, none⟩, ⟨[], [], "B", none, some ⟨true, 16, 5, false⟩⟩, ⟨[], [], "C", none, none⟩] = [0, -5, -4] := by decide
+
+
+/-- a file with every leaf kind satisfies the hypothesis of `layout_independence` -/
+def exFile : SFile := ⟨[⟨"cs::attr", ["a b", "x"]⟩], none,
+  [.struct [" doc"] [⟨"deprecated", []⟩] true "struct"
+     [⟨[], [], some ⟨true, 16, 255, true⟩, "x", .mk [] (.seq (.mk [] (.prim .string) true)) false⟩],
+   .enum [] [] false true "E" none [⟨[], [], "A", none, some ⟨false, 10, 7, false⟩⟩, ⟨[], [], "B", none, none⟩]]⟩
+example : fileOk exFile = true := by decide
+example : tokensOf [.tok "module", .sp, .tok "M", .nl 0, .tok "[", .glue, .tok "custom", .glue, .tok "]", .nl 0,
+      .tok "custom", .sp, .ident "struct", .glue, .optComma] =
+    [.kw "ModuleKeyword", .ident ['M'], .lbracket, .ident "custom".toList, .rbracket, .kw "CustomKeyword",
+     .ident "struct".toList] := by decide
+/-- where `compat` fails the spellings do merge: the separation rule is not vacuous -/
+example : lexSlice ("a".toList ++ "b".toList) = .ok [.ident ['a', 'b']] := by decide
+example : lexSlice ("[".toList ++ "[".toList) = .ok [.dlbracket] := by decide
+example : lexSlice (":".toList ++ ":".toList) = .ok [.dcolon] := by decide
+example : lexSlice ("-".toList ++ ">".toList) = .ok [.arrow] := by decide
+example : lexSlice ("1".toList ++ "x".toList) = .ok [.intLit ['1', 'x']] := by decide
+example : lexSlice ("///d".toList ++ "x".toList) = .ok [.doc ['d', 'x']] := by decide
+example : lexSlice "// a\r x: bool\ny".toList = .ok [.ident ['y']] := by decide
+/-- what the printer's `afterDoc` rule avoids: directly after a doc line, CR LF leaves the CR inside the comment text -/
+example : lexSlice "/// d\r\nx".toList = .ok [.doc [' ', 'd', '\r'], .ident ['x']] := by decide
+example : (lexRun false "[a\n// ]\n struct]struct".toList).items =
+    [.tok .lbracket, .tok (.ident ['a']), .tok (.ident "struct".toList), .tok .rbracket, .tok (.kw "StructKeyword")] := by decide
 
 end Slicec.C02
 
@@ -131,3 +307,18 @@ end Slicec.C02
 #print axioms Slicec.C02.enumerator_values
 #print axioms Slicec.C02.tag_stored
 #print axioms Slicec.C02.printer_escapes_every_keyword
+#print axioms Slicec.C02.lex_is_local
+#print axioms Slicec.C02.gaps_read_as_nothing
+#print axioms Slicec.C02.whitespace_reads_as_nothing
+#print axioms Slicec.C02.line_comment_reads_as_nothing
+#print axioms Slicec.C02.block_comment_reads_as_nothing
+#print axioms Slicec.C02.escaped_identifier_same_token
+#print axioms Slicec.C02.keyword_rows
+#print axioms Slicec.C02.attribute_mode_brackets_only
+#print axioms Slicec.C02.printer_respects_separation
+#print axioms Slicec.C02.names_with_identifier_segments
+#print axioms Slicec.C02.directives_with_identifier_segments
+#print axioms Slicec.C02.layout_independence_items
+#print axioms Slicec.C02.layout_independence
+#print axioms Slicec.C02.canonical_tokens
+#print axioms Slicec.C02.two_layouts_same_tokens
